@@ -1047,6 +1047,40 @@ def generate(repo):
                                   fallback_inputs=[[[0]] * 14, [[255]] * 14, [[0x41]] * 14],
                                   bounds="IS_MSO: arbitrary 14-byte body (8 message bytes) with TextStart = %d" % ts,
                                   functions=["<insim::insim::Mso as BinRead>::read_options"]))
+        vecs = [d for d in descs if d[0] == "vec"]
+        if vecs and variant != "RelayHos":
+            # element count beyond the small symbolic configurations: 61 Default elements (one past AXM's protocol
+            # maximum, above NLP/MCI/PLH's): the count byte must equal the number of elements actually written
+            d0 = vecs[0]
+            big = 61
+            cpos = 0
+            for d in descs:
+                if d[0] == "count":
+                    break
+                cpos += f_width(base, d, 0) if d[0] != "vec" else 0
+            bw = sum(f_width(base, d, big) for d in descs) + 1
+            if any(d[0] == "align4" for d in descs):
+                bw = ((bw + 1 + 3) & ~3) - 1
+            out.append("#[kani::proof]\n#[kani::unwind(%d)]\n"
+                       "#[kani::stub(alloc::fmt::format, stub_format)]\n"
+                       "fn c03_%s_count61() {\n"
+                       "    let mut p = <%s>::default();\n    p.reqi = insim::identifiers::RequestId(kani::any());\n"
+                       "    p.%s = vec![Default::default(); %d];\n"
+                       "    let mut out = [0xAAu8; %d];\n"
+                       "    let pk = Packet::%s(p);\n"
+                       "    let mut w = Cursor::new(&mut out[..]);\n"
+                       "    let r = pk.write_le(&mut w);\n"
+                       "    let n = w.position() as usize;\n"
+                       "    if r.is_ok() {\n"
+                       "        assert!(out[%d] as usize == %d, \"C03:count byte equals the number of elements\");\n"
+                       "        assert!(n == %d, \"C03:frame holds exactly the announced elements\");\n"
+                       "        assert!((n + 1) %% 4 == 0, \"C03:frame length is not a multiple of 4\");\n"
+                       "        kani::cover!(true, \"frame produced\");\n"
+                       "    }\n    std::mem::forget(r); std::mem::forget(pk);\n}\n"
+                       % (big + 4, low, T, d0[1], big, bw + 16, variant, cpos + 1, big, bw))
+            index.append(dict(name="c03_%s_count61" % low, prop="C03", tier="thorough", unwind=big + 4, cost=200,
+                              bounds="%s with 61 Default elements (count beyond the symbolic configurations), request id symbolic" % variant,
+                              functions=["<insim::Packet as BinWrite>::write_options", "<%s as BinWrite>::write_options" % T]))
         # ---- Codec::encode wiring for this kind: Default payload (concrete), both modes (symbolic)
         cw = max([d[2] for d in descs if d[0] == "str"] + [d[2] for d in descs if d[0] == "arr"] + [45]) + 3
         out.append("#[kani::proof]\n#[kani::unwind(%d)]\n"
